@@ -121,6 +121,15 @@ pub fn attack_programs() -> Vec<(&'static str, &'static str)> {
         ("strings", "@use \"sass:string\";\na { b: string.to-upper-case(\"abc\"); c: string.slice(\"hello\", 2, -2); d: string.index(\"abc\", \"c\"); }\n"),
         ("lists-maps", "@use \"sass:list\";\n@use \"sass:map\";\n$m: (a: 1, b: (c: 2));\na { b: list.nth(1 2 3, 2); c: map.get($m, b, c); d: list.join(1 2, 3 4, comma); e: meta-free; }\n"),
         ("unicode", "a { b: \"\u{e5}\u{e4}\u{f6}\"; c: \u{2603}; }\n"),
+        // definers / users of the same ordinary names: a definition must never outlive its compilation
+        ("define-helper-fn", "@function helper($x) { @return defined-helper; }\n@function my-fn($x) { @return defined-my-fn; }\na { b: helper(1); c: my-fn(2); }\n"),
+        ("use-helper-fn-undefined", "a { b: helper(1); c: my-fn(2); }\n"),
+        ("define-helper-mixin", "@mixin helper-mixin { x: defined-mixin; }\na { @include helper-mixin; }\n"),
+        ("use-helper-mixin-undefined", "a { @include helper-mixin; }\n"),
+        ("define-shared-var", "$shared: defined-shared !global;\na { b: $shared; }\n"),
+        ("use-shared-var-undefined", "a { b: $shared; }\n"),
+        ("define-placeholder", "%shared-ph { x: y; }\na { b: c; }\n"),
+        ("global-default-var", "$shared: 1 !default;\na { b: $shared; }\n"),
         ("random-unique", "@use \"sass:math\";\na { b: math.random(); c: math.random(10); d: unique-id(); }\n"),
         ("unique-many", "@for $i from 1 through 20 { x { y: unique-id(); } }\n"),
     ]
@@ -297,6 +306,18 @@ pub fn corpus() -> &'static [Item] {
         }
         out
     })
+}
+
+/// The same input under another output format: a result must never be
+/// remembered under a key that leaves the format out.
+pub fn twin_with_other_format(it: &Item, rng: &mut Rng) -> Item {
+    let mut t = it.clone();
+    loop {
+        t.fmt = Fmt { compressed: rng.chance(1, 2), precision: *rng.pick(&[0usize, 1, 3, 5, 10, 20]) };
+        if t.fmt != it.fmt {
+            return t;
+        }
+    }
 }
 
 /// Draw one workload item.
